@@ -16,7 +16,7 @@ def run(c, query, module, tag, what, n_models, partitions=({"mode": "default"}, 
             s["partition"] = part
             s["queries"] = [query]
             scen.append(s)
-    recs, crashed = pv.run_driver_resilient(exe, scen, timeout=3000)
+    recs, crashed = pv.run_driver_resilient(exe, scen, timeout=3000, scen_timeout=180)
     byid = {r["id"]: r for r in recs if r.get("e") == "Q"}
     ev, sc_of = [], {}
     for s in scen:
